@@ -99,7 +99,8 @@ CLAIMED = {
             'Skipping on: output equals the reference run with exactly the failing elements removed (in order; multiset under '
             'threads) and every assigned value is still next to its own input. Skipping off: the first failing element surfaces with '
             'the original exception in the cause chain, exactly the earlier elements were delivered, sinks are closed, no helper '
-            'thread survives. Enumerating fault positions against a reference is the appropriate level.',
+            'thread survives. Also: the same runner used again with the other skipping setting, and pipelines without any operator. '
+            'Enumerating fault positions against a reference is the appropriate level.',
             'all function-call errors are skippable (wrapped into ValueError), input-fetch and non-ValueError/TypeError source errors '
             'are not; threaded runs compared as multisets with a 30 s watchdog (re-run before reporting); open finding '
             'F-C12-assign-batch-skip steered around and reported.',
@@ -146,7 +147,9 @@ CLAIMED = {
             'blocked), nothing is delivered twice, all other producers return and the failing one re-raises; after a stop every '
             'thread finishes; the starved side raises TimeoutError at the virtual deadline; no explored schedule ends with a blocked '
             'thread. A second scenario runs an AsyncIteratorQueue with 1..3 async producers on a real event loop, one failing while '
-            'the others are parked inside their iterators: every consumer must see the exception meanwhile. Fault positions and '
+            'the others are parked inside their iterators: every consumer must see the exception meanwhile. Also: a producer whose '
+            'iterable cannot be opened, a consumer issuing a plain stop after the error, timeouts of 0, queues that count their '
+            'producers themselves, producers failing with the builtin TimeoutError. Fault positions and '
             'schedules are enumerated/sampled, so fault_enumeration is the level.',
             'same scheduler trusted base as C04; stalls are long virtual sleeps so only the configured timeout can end them.',
             '§2.2, §3 C05'),
@@ -157,7 +160,8 @@ CLAIMED = {
             'p, the mapped function raising on a value) under generated schedules. Checked: outputs are exactly the sequential '
             'multiset on exhaustion (a duplicate-free sub-multiset otherwise), generator return values are collected, the consumer '
             'sees the failure, every task submitted to the pool finishes, no virtual thread stays blocked (structural deadlock '
-            'detection) and MultiplexIterator shuts its pool down.',
+            'detection) and MultiplexIterator shuts its pool down. Also: two piter() pipelines on default pools drained in the opposite '
+            'order, and a consumer that receives KeyboardInterrupt inside next() of a MultiplexIterator (helpers still finish).',
             'same scheduler trusted base as C04 (in particular: races that need a switch inside one bytecode sequence, e.g. a lock-free '
             'shared generator, are not generated); early stop only for results that are Stoppable themselves.',
             '§2.2, §3 C13'),
@@ -173,7 +177,9 @@ CLAIMED = {
             'further scenarios: two overlapping init_generator requests under generated schedules (the installed generator is '
             'delivered faithfully, no prefetch thread of a replaced generator stays blocked), and the client side of the protocol '
             '(CourierClient.async_iterate against the real server over the in-process transport: elements, return value once, or '
-            'the generator\'s exception type and message).',
+            'the generator\'s exception type and message). Also: an initialisation that fails on the server followed by a request (must '
+            'be answered, not block), and the server\'s own serving loop with a short auto-shutdown period on the virtual clock while '
+            'a slow client keeps requesting.',
             'same scheduler trusted base as C04; in the scheduler scenarios handlers are called directly.',
             '§2.2, §3 C15'),
     'C20': ('exploration',
